@@ -412,6 +412,6 @@ def _config_case(draw):
 def subs(tier: str):
     q = tier == "quick"
     return [
-        Sub("sequences", check, "hypothesis", strategy=lambda: _case(5, 6 if q else 10), examples=40 if q else 600),
-        Sub("config-driven", check_config_driven, "hypothesis", strategy=_config_case, examples=20 if q else 300),
+        Sub("sequences", check, "hypothesis", strategy=lambda: _case(5, 6 if q else 10), examples=40 if q else 3000),
+        Sub("config-driven", check_config_driven, "hypothesis", strategy=_config_case, examples=20 if q else 1500),
     ]
